@@ -8,7 +8,7 @@
    significant bits, e.g. every extent < 2^24 with a scale of at most 29 significant bits; other scales are outside the model.
    ONNX Resize-18 with `scales` (a float32 tensor): output_dim = floor(input_dim * scale), evaluated by onnxruntime in float32:
    the scale is first rounded to float32 (the Constant holds float32), the product is rounded to float32 again. *)
-From Coq Require Import ZArith List Bool QArith.
+From Coq Require Import ZArith List Bool QArith String.
 Require Import OV.Torch.Onnx OV.Torch.F32.
 Import ListNotations.
 Local Open Scope Z_scope.
@@ -47,6 +47,6 @@ Definition torch_upsample_extents (k : up_kind) (ns size : list Z) (scales : lis
   | UVec => match size with [] => map2o torch_scale_extent ns scales | _ => size end
   | _ => size
   end.
-Definition skel_upsample (k : up_kind) (size : list Z) (scales : list (option Q)) : list (String.string * list (list Z)) :=
+Definition skel_upsample (k : up_kind) (size : list Z) (scales : list (option Q)) : list (string * list (list Z)) :=
   if aten_upsample_uses_scales k scales then [("Resize"%string, [[0]; [0]])]
   else [("Shape"%string, [[2]; [0]]); ("Cast"%string, [[7]; size]); ("Concat"%string, [[0]]); ("Resize"%string, [[0]; [0]])].
